@@ -126,6 +126,7 @@ PPaths gen_paths(Rng& r, int64_t mag, int maxpaths, int maxpts, bool z, const Fr
 // now and then the floating-point input is far outside what the integer engine can hold after scaling: the library
 // must reject it (range error) whatever the precision, never let it through
 static bool g_allow_blow_up = false;   // only in C10 cases generated for the builds without the strict signed-overflow check
+static bool g_allow_dup_container = false;   // only in C10 cases: the same container added twice to one clipper (known finding C10-F9)
 static void maybe_blow_up(PPathsD& pp, Rng& r) {
   if (!g_allow_blow_up || !r.chance(0.06)) return;
   // the input coordinates themselves stay within 2^40 (the property's range); it is coordinate x 10^precision that does not fit
@@ -410,6 +411,7 @@ static int append_entry(Rng& r, Plan& pl, int kind, int task, int slot0, const s
       Op u1 = mkop("c_reuse", task); u1.o = c1; u1.o2 = k; push(u1);
       if (r.chance(0.5)) { Op o = mkop("c_add", task); o.o = c1; o.i = {2}; setP(o, 0, gen_paths(r, mc.mag, maxpaths, maxpts, z, &f)); push(o); }
       Op u2 = mkop("c_reuse", task); u2.o = c2; u2.o2 = k; push(u2);
+      if (g_allow_dup_container && r.chance(0.012)) { Op u3 = mkop("c_reuse", task); u3.o = c2; u3.o2 = k; u3.i = {1}; push(u3); }   // the same container a second time
       for (int i = 0; i < 3; ++i) { Op o = mkop("c_exec", task); o.o = (i & 1) ? c2 : c1; o.i = {(int64_t)r.range(1, 4), (int64_t)r.below(4), (int64_t)r.below(4), 0}; push(o); }
       if (r.chance(0.5)) { Op o = mkop("clear", task); o.o = c1; push(o); Op o2 = mkop("clear", task); o2.o = c2; push(o2); Op o3 = mkop("clear", task); o3.o = k; push(o3); }
       if (r.chance(0.5)) { Op d = mkop("del", task); d.o = r.chance(0.5) ? c1 : c2; push(d); }
@@ -425,8 +427,8 @@ Plan gen_c10(uint64_t seed, uint64_t run, const std::string& cfg) {
   Rng g(mix64(base, tag64("gen"))); Rng e(mix64(base, tag64("env")));
   pl.env = e.next() | 1;
   bool z = cfg.find('Z') != std::string::npos;
-  g_allow_blow_up = cfg.find("62") != std::string::npos;
-  struct Reset { ~Reset() { g_allow_blow_up = false; } } reset_on_exit;
+  g_allow_blow_up = cfg.find("62") != std::string::npos; g_allow_dup_container = true;
+  struct Reset { ~Reset() { g_allow_blow_up = false; g_allow_dup_container = false; } } reset_on_exit;
   int sz = (int)g.below(100);
   int maxpaths = sz < 60 ? 2 : (sz < 92 ? 4 : 8), maxpts = sz < 55 ? 6 : (sz < 88 ? 14 : (sz < 98 ? 40 : 100));
   if (g.chance(0.08)) {                                          // phase C: faults inside object histories
